@@ -370,7 +370,10 @@ def tagsOk (t : Ty) : Bool :=
 theorem tagsOk_all : Ty.all.all tagsOk = true := by decide +kernel
 
 /-- **Every element name of the tables is a plain name** (re-decided on every run): ASCII letters, digits and
-`: _ - .` only — so nothing the serialiser writes as a tag can be mistaken by the tokeniser. -/
+`: _ - .` only — so nothing the serialiser writes as a tag can be mistaken by the tokeniser; and the attribute keys
+that can be written into the start tag of one struct (`xmlns` of a root, the prefix declarations `xmlns:xsi`, the
+members bound to attributes: `attrKeys`) are pairwise distinct — so `check_attributes` (quick-xml's duplicate check,
+since the repair ab8d746) refuses nothing the serialiser writes. -/
 theorem C13_tables_tags_good (t : Ty) :
     goodName t.selfTag = true ∧ (∃ s, serSchema t = some s ∧ s.tagsGood = true) ∧
     (∀ r, serRoot t = some r → r.tagsGood = true) := by
@@ -528,6 +531,22 @@ theorem C13_accepted_documents_wellformed_pi_target (X : Ext) (root : Bytes) (s 
     (h : decodeDoc X (.named root) s (deEvents q) = .ok v) :
     (∀ c, QEv.pi c ∈ q → PiBody c) ∧ q.any QEv.stopsRun = false :=
   ⟨fun _ hc => decodeDoc_named_pi X h hc, decodeDoc_named_no_stop X h⟩
+
+/-- **The attributes of every start tag of an accepted document are syntactically well-formed** (clause
+attribute-syntax of well-formedness: production [41] Attribute `Name Eq AttValue`, [10] AttValue quoted and closed,
+constraint *Unique Att Spec*; FULL since the repair ab8d746: `Deserializer::read_event` runs quick-xml's attribute
+iterator with its checks over every `Start` and `Empty` event, `check_attributes` — until then only the start tag of
+`Grantee` was looked at, without the duplicate check: finding `xml-illformed-accepted:attribute-syntax`, fixed). For
+every token sequence `q`, every schema, every expected root: when the document is accepted, the bytes behind the
+element name of **every** start tag and empty-element tag — at any depth, read or skipped — are a sequence of
+`S* key S* '=' S* q value q` (`q` one of the two quotes, the value free of it: quoted and terminated; the key not
+empty and free of white space) with pairwise distinct keys, followed by white space only (`AttrList []`); and no
+token at which `read_event` fails is left. Nothing the serialiser writes is refused: the keys written into one start
+tag are pairwise distinct (`C13_tables_tags_good`), `C13_tokenize_write` and `C13_bytes_roundtrip` stand as before. -/
+theorem C13_accepted_documents_wellformed_attribute_syntax (X : Ext) (root : Bytes) (s : Sch) (q : List QEv) (v : Val)
+    (h : decodeDoc X (.named root) s (deEvents q) = .ok v) :
+    (∀ n r, QEv.start n r ∈ q ∨ QEv.empty n r ∈ q → AttrList [] r) ∧ q.any QEv.stopsRun = false :=
+  ⟨fun _ _ hc => decodeDoc_named_attrs X h hc, decodeDoc_named_no_stop X h⟩
 
 /-! ## meaning -/
 
@@ -695,5 +714,24 @@ example : deEvents [.start t_Key [], .pi [], .stop t_Key] = [.start t_Key [], .b
 example : deEvents [.start t_Key [], .pi [49, 97], .stop t_Key] = [.start t_Key [], .bad .invalidContent] := by decide
 example : deEvents [.start t_Key [], .pi [88, 77, 76], .stop t_Key] = [.start t_Key [], .bad .invalidContent] := by decide
 example : deEvents [.start t_Key [], .pi [120, 109, 108, 45, 115], .stop t_Key] = [.start t_Key [], .stop t_Key] := by decide
+
+/-- the hypothesis of `C13_accepted_documents_wellformed_attribute_syntax` is inhabited: `<Key a = 'x' b="y" >k</Key>` is
+accepted and its start tag carries two attributes … -/
+example : tokenize [60, 75, 101, 121, 32, 97, 32, 61, 32, 39, 120, 39, 32, 98, 61, 34, 121, 34, 32, 62, 107, 60, 47, 75, 101, 121, 62]
+    = [.start t_Key [32, 97, 32, 61, 32, 39, 120, 39, 32, 98, 61, 34, 121, 34, 32], .text [107], .stop t_Key] := by decide
+example : (match decodeDoc { tsParse := fun _ _ => none } (.named t_Key) .str
+      (deEvents (tokenize [60, 75, 101, 121, 32, 97, 32, 61, 32, 39, 120, 39, 32, 98, 61, 34, 121, 34, 32, 62, 107, 60, 47, 75, 101, 121, 62])) with
+    | .ok (.str b) => b == [107] | _ => false) = true := by decide
+
+/-- … ` a=b` (unquoted), ` a` (no `=`), ` a=` (no value), ` a="b` (not closed) and ` a="1" a="2"` (written twice) end
+the run with `InvalidXml`, in a start tag and in an empty-element tag; ` a="1" b='2'` passes -/
+example : deEvents [.start t_Key [32, 97, 61, 98], .stop t_Key] = [.bad .invalidXml] := by decide
+example : deEvents [.start t_Key [32, 97], .stop t_Key] = [.bad .invalidXml] := by decide
+example : deEvents [.start t_Key [32, 97, 61], .stop t_Key] = [.bad .invalidXml] := by decide
+example : deEvents [.start t_Key [32, 97, 61, 34, 98], .stop t_Key] = [.bad .invalidXml] := by decide
+example : deEvents [.start t_Key [32, 97, 61, 34, 49, 34, 32, 97, 61, 34, 50, 34], .stop t_Key] = [.bad .invalidXml] := by decide
+example : deEvents [.empty t_Key [32, 97, 61, 34, 49, 34, 32, 97, 61, 34, 50, 34]] = [.bad .invalidXml] := by decide
+example : deEvents [.start t_Key [32, 97, 61, 34, 49, 34, 32, 98, 61, 39, 50, 39], .stop t_Key]
+    = [.start t_Key [32, 97, 61, 34, 49, 34, 32, 98, 61, 39, 50, 39], .stop t_Key] := by decide
 
 end S3V.C13
